@@ -2,7 +2,7 @@
 import PhotVerif.Driver.Geom
 namespace PhotVerif.Driver
 
-def handlers : List (String → List String → Option String) := [handleGeom]
+def handlers : List (String → List String → Option String) := [handleGeom, handleMask]
 
 def dispatch (line : String) : String :=
   match tokens line with
